@@ -254,5 +254,47 @@ pub fn run(args: &Args, log: &Log) -> Result<(), String> {
         run_encode(log, cmd, pick_sid(&mut r), *len, &mut r);
     }
     for b in 0..=255u8 { run_encode(log, b, pick_sid(&mut r), r.range(0, 40) as usize, &mut r); }
+    let _ = std::panic::take_hook();
+
+    // 5. the decoder as the session drives it: a real server session reads a frame sequence in many fragmentations
+    //    (every two-piece cut, byte at a time, random); every keep-alive request must be answered, in order
+    {
+        use crate::rig::{self, frame_bytes, parse_frames};
+        use crate::sched::quiesce;
+        let rt = rig::paused_rt();
+        let local = tokio::task::LocalSet::new();
+        local.block_on(&rt, async {
+            let n_seq = if thorough { 60 } else { 8 };
+            for i in 0..n_seq {
+                // a frame sequence: keep-alive requests with distinct ids, padding frames of assorted sizes between them
+                let mut bytes: Vec<u8> = Vec::new(); let mut sids: Vec<i64> = Vec::new();
+                let nf = r.range(2, 5);
+                for k in 0..nf {
+                    if r.chance(1, 2) { let l = *r.pick(&[0usize, 1, 5, 6, 7, 8, 30]); bytes.extend_from_slice(&frame_bytes(if r.chance(1, 2) { 0 } else { 200 }, 0, &vec![0u8; l])); }
+                    let sid = 1000 * (i as u32 + 1) + k as u32; sids.push(sid as i64);
+                    bytes.extend_from_slice(&frame_bytes(8, sid, &[]));
+                }
+                let total = bytes.len();
+                let mut frags: Vec<Vec<usize>> = (1..total).map(|c| vec![c, total - c]).collect();  // every two-piece cut
+                frags.push(vec![1; total]);                                                          // byte at a time
+                for _ in 0..6 { frags.push(random_feeds(&mut r, total)); }
+                for feeds in frags {
+                    let rg = rig::server_rig(anytls_rs::padding::PaddingFactory::default(), true);
+                    rg.inp.push(&frame_bytes(4, 0, b"v=2\npadding-md5=x")); quiesce().await;
+                    rg.out.take_record();
+                    let mut at = 0usize;
+                    for f in &feeds { let to = (at + *f).min(total); if to > at { rg.inp.push(&bytes[at..to]); at = to; quiesce().await; } }
+                    if at < total { rg.inp.push(&bytes[at..]); quiesce().await; }
+                    quiesce().await;
+                    let rec = rg.out.take_record();
+                    let (frames, _) = parse_frames(&rec);
+                    let got: Vec<i64> = frames.iter().filter(|f| f.cmd == 9).map(|f| f.sid as i64).collect();
+                    log.block(json!({"kind": "session-frag", "i": i, "total": total, "feeds": feeds}), vec![json!({"ev": "sfrag", "sids": sids, "got": got}), json!({"ev": "end", "frames": 0})]);
+                    let _ = tokio::time::timeout(std::time::Duration::from_secs(3), rg.sess.close()).await;
+                    quiesce().await;
+                }
+            }
+        });
+    }
     Ok(())
 }
